@@ -28,6 +28,13 @@ func init() { logx.Disable() } // panicking callbacks are recovered and logged b
 // is not observable, so each key carries a *set* of candidate states (op-before-tick /
 // op-after-tick) and the observation of every tick has to match at least one candidate.
 // In sequential mode the set is always a singleton and the check is exact.
+//
+// Further dimensions of the workload live in files of their own: the objects used as keys and
+// values, panic values, delays thousands of revolutions long (shapes_test.go); slow execute
+// callbacks that stay parked in user code across ticks and operations (park_test.go); bursts of
+// ticks without quiescence in between (burst_test.go); a second wheel in the same run
+// (peer_test.go); slow Drain followed by operations (drain_test.go); and two layers on top of the
+// wheel: the cache cleaner (cleaner_test.go) and collection.Cache (cache_test.go).
 
 type opKind int
 
@@ -36,9 +43,13 @@ const (
 	opTick
 	opMove
 	opRemove
+	opBurst // n ticks back to back, no quiescence in between (fake ticker)
+	opDrain // Drain in the middle of the history; the history goes on afterwards
 )
 
-func (k opKind) String() string { return [...]string{"set", "tick", "move", "remove"}[k] }
+func (k opKind) String() string {
+	return [...]string{"set", "tick", "move", "remove", "tick-burst", "drain"}[k]
+}
 
 type op struct {
 	kind  opKind
@@ -46,8 +57,9 @@ type op struct {
 	val   int
 	steps int           // floor(delay/interval)
 	frac  time.Duration // delay = steps*interval + frac, 0 <= frac < interval
-	n     int           // opTick: number of ticks
+	n     int           // opTick / opBurst: number of ticks
 	act   action        // opSet: what the execute callback does when it is called with this value
+	rep   int           // opSet: 1 = re-uses the value of the previous set of this key, 2 = and its delay (identical refresh)
 }
 
 // action is the user code run by the execute callback for one particular value: it may call back
@@ -59,15 +71,18 @@ const (
 	actRearm               // SetTimer(same key, fresh value, delay) from inside the callback
 	actMoveOther           // MoveTimer(other key, delay) from inside the callback
 	actRemoveOther         // RemoveTimer(other key) from inside the callback
+	actSetOther            // SetTimer(other key, fresh value, delay) from inside the callback
 )
 
 type action struct {
 	kind   actKind
-	key    int // actMoveOther / actRemoveOther: the other key
+	key    int // actMoveOther / actRemoveOther / actSetOther: the other key (may be the callback's own key)
 	steps  int
 	frac   time.Duration
 	chain  int  // actRearm: the re-armed value re-arms again, this many more times
+	park   bool // the callback is slow: it parks (after the above) until the harness lets it go, ticks and operations later
 	panics bool // the callback panics (after having done the above)
+	pkind  int  // what it panics with (panicNames)
 }
 
 func (a action) String() string {
@@ -79,9 +94,14 @@ func (a action) String() string {
 		s = fmt.Sprintf(" cb:move(k%d,%d ticks+%v)", a.key, a.steps, a.frac)
 	case actRemoveOther:
 		s = fmt.Sprintf(" cb:remove(k%d)", a.key)
+	case actSetOther:
+		s = fmt.Sprintf(" cb:set(k%d,%d ticks+%v)", a.key, a.steps, a.frac)
+	}
+	if a.park {
+		s += " cb:park"
 	}
 	if a.panics {
-		s += " cb:panic"
+		s += " cb:panic(" + panicNames[a.pkind] + ")"
 	}
 	return s
 }
@@ -97,14 +117,20 @@ func (o op) String() string {
 		return fmt.Sprintf("move(k%d,%d ticks+%v)", o.key, o.steps, o.frac)
 	case opRemove:
 		return fmt.Sprintf("remove(k%d)", o.key)
+	case opBurst:
+		return fmt.Sprintf("tick-burst x%d", o.n)
+	case opDrain:
+		return "drain"
 	}
 	return fmt.Sprintf("tick x%d", o.n)
 }
 
 // step is one element of the generated history.
 type step struct {
-	race bool // ops are issued concurrently with exactly one tick
-	ops  []op // !race: exactly one op
+	race     bool // ops are issued concurrently with exactly one tick
+	ops      []op // !race && !b2b: exactly one op
+	b2b      bool // ops are issued back to back by the sequential client, no quiescence in between ...
+	thenTick bool // ... and are directly followed by one tick
 }
 
 func (s step) String() string {
@@ -114,6 +140,12 @@ func (s step) String() string {
 	}
 	if s.race {
 		return "race{tick | " + strings.Join(p, " | ") + "}"
+	}
+	if s.b2b {
+		if s.thenTick {
+			p = append(p, "tick x1")
+		}
+		return "back-to-back{" + strings.Join(p, "; ") + "}"
 	}
 	return strings.Join(p, "")
 }
@@ -131,7 +163,13 @@ type keyState struct {
 	gone    string // why the key is absent: never-set, removed, fired, drained
 }
 
-type fire struct{ key, val int }
+type fire struct {
+	key, val int
+	at       int  // tick-burst: base tick + number of ticks handed to the ticker when the callback was entered
+	owed     bool // entered after a parked callback of its tick was let go (see park_test.go)
+}
+
+func (f fire) String() string { return fmt.Sprintf("k%d=v%d", f.key, f.val) }
 
 type outcome struct {
 	fire bool
@@ -168,11 +206,38 @@ type world struct {
 
 	// slow Drain followed by operations (drain_test.go)
 	sd *slowDrain
+
+	// shapes of keys and values handed to the wheel (shapes_test.go)
+	keyOf    []any
+	keyIdx   map[any]int
+	valShape int
+	pkDrain  int // what a panicking drain callback panics with
+
+	// slow execute callbacks (park_test.go)
+	gate   chan struct{}
+	parked []int      // the tick (batch) of every execute callback that is parked right now
+	owed   []owedFire // timers that became due at a tick of which a callback is parked and were not executed yet
+	inTick int        // the tick the wheel is taking right now (0: none)
+
+	// tick bursts
+	inBurst              bool
+	burstBase, burstSent int
+
+	// a second wheel living in the same run (peer_test.go); name distinguishes them in messages
+	peer   *world
+	name   string
+	drains int
 }
 
 func (w *world) fail(class, format string, a ...any) {
+	if w.name != "" {
+		format = w.name + ": " + format
+	}
 	w.r.Fail(class, format, a...)
 	w.stop = true
+	if w.peer != nil {
+		w.peer.stop = true
+	}
 }
 
 func (w *world) delay(o op) time.Duration { return time.Duration(o.steps)*w.interval + o.frac }
@@ -182,11 +247,11 @@ func (w *world) issue(o op) {
 	var err error
 	switch o.kind {
 	case opSet:
-		err = w.tw.SetTimer(o.key, o.val, w.delay(o))
+		err = w.tw.SetTimer(w.keyOf[o.key], encVal(w.valShape, o.val), w.delay(o))
 	case opMove:
-		err = w.tw.MoveTimer(o.key, w.delay(o))
+		err = w.tw.MoveTimer(w.keyOf[o.key], w.delay(o))
 	case opRemove:
-		err = w.tw.RemoveTimer(o.key)
+		err = w.tw.RemoveTimer(w.keyOf[o.key])
 	}
 	if err != nil {
 		w.fail("op-error", "%v returned %v", o, err)
@@ -198,8 +263,21 @@ func (w *world) issue(o op) {
 func (w *world) onExecute(k, v any) {
 	r := w.r
 	r.Yield()
-	key, val := k.(int), v.(int)
-	w.fires = append(w.fires, fire{key, val})
+	key, val, known := w.decode(k, v)
+	if !known {
+		w.fail("fired-unknown-key", "the wheel executed (%#v, %#v): no such key or value was ever handed to it", k, v)
+		return
+	}
+	f := fire{key: key, val: val}
+	if w.inBurst {
+		f.at = w.burstBase + w.burstSent
+	}
+	// the tick whose batch of callbacks this call belongs to
+	batch := w.inTick
+	if batch == 0 {
+		batch, f.owed = w.enterOwed(key, val)
+	}
+	w.fires = append(w.fires, f)
 	r.Ev("fire", int64(key), int64(val))
 	a, ok := w.acts[val]
 	if !ok {
@@ -219,20 +297,37 @@ func (w *world) onExecute(k, v any) {
 		r.Probe("callback-rearms-own-key")
 	case actMoveOther:
 		o = op{kind: opMove, key: a.key, steps: a.steps, frac: a.frac}
-		r.Probe("callback-moves-other-key")
+		if a.key == key {
+			r.Probe("callback-moves-own-key")
+		} else {
+			r.Probe("callback-moves-other-key")
+		}
 	case actRemoveOther:
 		o = op{kind: opRemove, key: a.key}
-		r.Probe("callback-removes-other-key")
+		if a.key == key {
+			r.Probe("callback-removes-own-key")
+		} else {
+			r.Probe("callback-removes-other-key")
+		}
+	case actSetOther:
+		nv := w.nextCbVal
+		w.nextCbVal++
+		o = op{kind: opSet, key: a.key, val: nv, steps: a.steps, frac: a.frac}
+		r.Probe("callback-sets-other-key")
 	}
 	if a.kind != actNone {
 		w.issue(o)
 		w.cbOps = append(w.cbOps, o)
 		r.Ev("cb-op", int64(o.kind), int64(o.key), int64(o.steps))
 	}
+	if a.park {
+		w.park(batch)
+	}
 	if a.panics {
 		r.Probe("execute-callback-panics")
+		r.Probe("execute-callback-panics-with:" + panicNames[a.pkind])
 		w.panicked = true
-		panic(fmt.Sprintf("c12: user code of the execute callback panics (k%d, v%d)", key, val))
+		doPanic(a.pkind, fmt.Sprintf("c12: user code of the execute callback panics (k%d, v%d)", key, val))
 	}
 }
 
@@ -329,6 +424,9 @@ func (w *world) noteOpP(ks *keyState, o op, pending bool) {
 			r.Probe("delay>1rev")
 			w.boundary = true
 		}
+		if o.steps > farLimit {
+			r.Probe("delay-thousands-of-revolutions")
+		}
 		if o.steps%w.n == 0 {
 			r.Probe("delay=k*slots")
 		}
@@ -357,14 +455,38 @@ func (w *world) setCands(ks *keyState, cs []cand, o op) {
 	}
 }
 
-// seqOp issues one operation with nothing else going on and waits for quiescence.
-func (w *world) seqOp(o op) {
+// beginOp: bookkeeping for an operation of the sequential client, before it is issued.
+func (w *world) beginOp(o op) {
 	ks := w.keys[o.key]
 	w.noteOp(ks, o)
 	w.r.Ev("op", int64(o.kind), int64(o.key), int64(o.steps))
 	if o.kind == opSet && o.act != (action{}) {
 		w.acts[o.val] = o.act
 	}
+	if len(w.parked) > 0 {
+		w.r.Probe("op-while-execute-callback-parked")
+	}
+	if o.kind == opSet && o.rep > 0 {
+		w.r.Probe([]string{"", "set-repeats-previous-value", "set-identical-refresh(same-value-same-delay)"}[o.rep])
+	}
+	if o.kind == opSet && o.val == nilVal {
+		w.r.Probe("set-nil-value")
+	}
+}
+
+// applyOp: the operation has returned to the sequential client; the model follows.
+func (w *world) applyOp(o op) {
+	ks := w.keys[o.key]
+	var cs []cand
+	for _, c := range ks.cands {
+		cs = addCand(cs, apply(c, o, w.T))
+	}
+	w.setCands(ks, cs, o)
+}
+
+// seqOp issues one operation with nothing else going on and waits for quiescence.
+func (w *world) seqOp(o op) {
+	w.beginOp(o)
 	if w.sd != nil {
 		w.sd.opAfterDrain(o)
 	} else {
@@ -374,18 +496,46 @@ func (w *world) seqOp(o op) {
 	if w.stop {
 		return
 	}
-	var cs []cand
-	for _, c := range ks.cands {
-		cs = addCand(cs, apply(c, o, w.T))
-	}
-	w.setCands(ks, cs, o)
+	w.applyOp(o)
 	if len(w.fires) > 0 {
 		w.fail("fired-outside-tick", "after %v (no tick since the last check) the wheel executed %v", o, w.fires)
 	}
 }
 
+// backToBack: the sequential client issues the operations one directly after the other and then,
+// optionally, lets the ticker tick - without ever waiting for the wheel to be idle in between.
+// SetTimer / MoveTimer / RemoveTimer return when the wheel has taken the request, so the order
+// is the program order: every operation is applied before the next one and before the tick, and
+// the model is as exact as with quiescence after every call.
+func (w *world) backToBack(ops []op, thenTick bool) {
+	r := w.r
+	r.Probe("operations-back-to-back-without-quiescence")
+	for _, o := range ops {
+		w.beginOp(o)
+		w.issue(o)
+		if w.stop {
+			return
+		}
+		w.applyOp(o)
+	}
+	if thenTick {
+		r.Probe("tick-directly-after-operation-without-quiescence")
+		w.seqTicks(1)
+		return
+	}
+	r.Quiesce()
+	if len(w.fires) > 0 {
+		w.fail("fired-outside-tick", "after %v (no tick since the last check) the wheel executed %v", ops, w.fires)
+	}
+}
+
 // rawTick makes the wheel take exactly one tick and waits for quiescence.
 func (w *world) rawTick() bool {
+	w.inTick = w.T + 1
+	defer func() { w.inTick = 0 }()
+	if len(w.parked) > 0 {
+		w.r.Probe("tick-while-execute-callback-parked")
+	}
 	if w.fake != nil {
 		w.fake.Tick()
 		w.r.Quiesce()
@@ -546,6 +696,23 @@ func (w *world) checkTick(ops map[int]op) {
 				match = append(match, x)
 			}
 		}
+		if len(next) == 0 && len(obs) == 0 && w.batchParked(T1) {
+			// The timer is due now and its callback was not entered, but a callback of THIS tick
+			// is parked in user code: the callbacks of one tick run one after the other, so this one
+			// waits behind it.  For the wheel the timer has fired (it is no longer pending); the
+			// execution is owed and has to arrive once the parked callback was let go.
+			var vals []int
+			for _, x := range outs {
+				if x.fire {
+					next = addCand(next, x.next)
+					match = append(match, x)
+					vals = append(vals, x.val)
+				}
+			}
+			w.owed = append(w.owed, owedFire{key: k, vals: vals, batch: T1})
+			ks.gone = "fired"
+			r.Probe("timer-due-waits-behind-parked-callback-of-its-tick")
+		}
 		if len(next) > 0 {
 			if len(obs) == 1 {
 				w.verified++
@@ -643,11 +810,25 @@ func (w *world) diagnoseMissed(k int, ks *keyState, dues []int, hadPanic bool) {
 	}
 	max := 0
 	for _, d := range dues {
-		if d > max {
+		if d > max && d-w.T <= farLimit {
 			max = d
 		}
 	}
-	due := w.T
+	due := dues[0]
+	if len(w.parked) > 0 {
+		// slow callbacks of other ticks are still parked: let them all go first
+		w.releaseQuietly()
+		for _, f := range w.fires {
+			if f.key == k {
+				w.fail(origin+":held-up-by-slow-callback-of-another-tick", "key k%d was due at tick %d (model %v) and was only executed (at tick %d) when the parked callbacks of other ticks were let go; no callback of its own tick was parked", k, due, ks.cands, w.T)
+				return
+			}
+		}
+		w.fires = w.fires[:0]
+	}
+	if max < w.T {
+		max = w.T
+	}
 	limit := max + 2*w.n + 2
 	firedAt := -1
 	for w.T < limit && firedAt < 0 {
@@ -679,11 +860,13 @@ func (w *world) diagnoseMissed(k int, ks *keyState, dues []int, hadPanic bool) {
 	}
 }
 
+// maxDue is the latest due tick of any pending timer; timers thousands of revolutions away
+// (never reached in a run) do not count.
 func (w *world) maxDue() int {
 	m := 0
 	for _, ks := range w.keys {
 		for _, c := range ks.cands {
-			if c.pending && c.due > m {
+			if c.pending && c.due > m && c.due-w.T <= farLimit {
 				m = c.due
 			}
 		}
@@ -696,14 +879,26 @@ func (w *world) maxDue() int {
 func (w *world) drain(raceTick bool) {
 	r := w.r
 	r.Probe("drain")
+	w.drains++
+	if w.drains > 1 {
+		r.Probe("drain-repeated-on-one-wheel")
+	}
+	if len(w.parked) > 0 {
+		r.Probe("drain-while-execute-callback-parked")
+	}
 	fn := func(k, v any) {
 		r.Yield()
-		w.drained = append(w.drained, fire{k.(int), v.(int)})
-		r.Ev("drained", int64(k.(int)), int64(v.(int)))
-		if w.drainPanics[k.(int)] {
+		key, val, known := w.decode(k, v)
+		if !known {
+			w.fail("drain-unknown-key", "Drain delivered (%#v, %#v): no such key or value was ever handed to the wheel", k, v)
+			return
+		}
+		w.drained = append(w.drained, fire{key: key, val: val})
+		r.Ev("drained", int64(key), int64(val))
+		if w.drainPanics[key] {
 			r.Probe("drain-callback-panics")
 			w.drainPanicked = true
-			panic(fmt.Sprintf("c12: user code of the drain callback panics (k%d)", k.(int)))
+			doPanic(w.pkDrain, fmt.Sprintf("c12: user code of the drain callback panics (k%d)", key))
 		}
 	}
 	r.Ev("drain")
@@ -750,6 +945,8 @@ func (w *world) drain(raceTick bool) {
 	w.panicked = false
 	if len(w.drained) > 0 {
 		r.Probe("drain-nonempty")
+	} else {
+		r.Probe("drain-of-an-empty-wheel")
 	}
 	for k := range w.keys {
 		if len(gotD[k]) > 1 {
@@ -895,15 +1092,16 @@ const (
 	modeSeqReal
 	modeBulk    // sequential, fake ticker, more pending timers than Drain has workers, slow Drain
 	modeCleaner // second layer: the cache cleaner's retry ladder on its own wheel (cleaner_test.go)
+	modeCache   // second layer: collection.Cache's expiry timers on its own wheel (cache_test.go)
 )
 
 var modeNames = []string{"sequential, fake ticker", "operations racing with ticks, fake ticker", "sequential, real ticker on the virtual clock",
-	"many pending timers, slow Drain followed by operations, fake ticker", "cache cleaner retry ladder"}
+	"many pending timers, slow Drain followed by operations, fake ticker", "cache cleaner retry ladder", "collection.Cache expiry timers"}
 
 func body(r *simrt.Run, tier string) {
 	t := r.Tape
 	mode := modeSeqFake
-	switch m := t.Intn(12); {
+	switch m := t.Intn(13); {
 	case m < 5:
 	case m < 8:
 		mode = modeRace
@@ -911,8 +1109,11 @@ func body(r *simrt.Run, tier string) {
 		mode = modeSeqReal
 	case m < 11:
 		mode = modeBulk
-	default:
+	case m < 12:
 		cleanerBody(r, tier)
+		return
+	default:
+		cacheBody(r, tier)
 		return
 	}
 	maxSlots, maxSteps, maxKeys := 12, 14, 4
@@ -937,7 +1138,35 @@ func body(r *simrt.Run, tier string) {
 	pPanic := []int{0, 0, 0, 3}[t.Intn(4)]   // of 10: the execute callback panics for this value
 	pAct := []int{0, 0, 0, 3}[t.Intn(4)]     // of 10: the execute callback calls back into the wheel
 	noDemote := mode == modeRace && t.Bool() // operations racing with a tick also on re-scheduled pending keys
-	align := pPanic > 0 || pAct > 0 || mode == modeBulk
+	// 0: run out; 1: drain; 2: some ticks, then drain; 3: drain racing with a tick (race mode) / drain;
+	// 4: slow drain followed by operations and ticks
+	end := []int{0, 1, 0, 2, 0, 3, 4, 4}[t.Intn(8)]
+	if mode == modeBulk {
+		end = 4
+	}
+	// what is handed to the wheel (shapes_test.go); draw 0: ints
+	keyShape := []int{0, 0, 0, 1, 2, 3, 4}[t.Intn(7)]
+	valShape := []int{0, 0, 1, 2, 3}[t.Intn(5)]
+	useNil := t.Intn(4) == 3             // some sets carry a nil value
+	pRepeat := []int{0, 0, 3}[t.Intn(3)] // of 10: a set re-uses the value of the previous set of its key (half of them: and its delay)
+	pkDrain := t.Intn(len(panicNames))   // what a panicking drain callback panics with
+	far := t.Intn(4) == 3                // some delays are thousands of revolutions long
+	pDrain := []int{0, 0, 1}[t.Intn(3)]  // of 12: a sequential step is a Drain (the history goes on afterwards)
+	withPeer := t.Intn(6) == 5           // a second wheel lives in the same run (peer_test.go)
+	pPark := 0                           // of 10: the execute callback parks for this value (park_test.go)
+	if (mode == modeSeqFake || mode == modeSeqReal) && end != 4 {
+		pPark = []int{0, 0, 3}[t.Intn(3)]
+	}
+	pBurst := 0 // of 10: a tick step is a burst of ticks without quiescence in between (burst_test.go)
+	if (mode == modeSeqFake || mode == modeBulk) && pAct == 0 && pPark == 0 {
+		pBurst = []int{0, 0, 5}[t.Intn(3)]
+	}
+	align := pPanic > 0 || pAct > 0 || mode == modeBulk || pPark > 0 || pBurst > 0
+	pB2B := []int{0, 0, 4}[t.Intn(3)] // of 10: an operation step is issued without waiting for quiescence (backToBack)
+	alignDen := 3                     // one delay in three is aligned with the due tick of another key
+	if pPark > 0 || pBurst > 0 {
+		alignDen = 2
+	}
 
 	// generation-time picture of the history (which keys are probably pending, and when they are
 	// due); it only steers the workload towards several timers due at the same tick
@@ -947,7 +1176,10 @@ func body(r *simrt.Run, tier string) {
 		genDue[i] = -1
 	}
 	steps := func(key int) int {
-		if align && t.Intn(3) == 0 {
+		if far && t.Intn(8) == 0 {
+			return hugeSteps(t, n, interval)
+		}
+		if align && t.Intn(alignDen) == 0 {
 			var c []int
 			for k, d := range genDue {
 				if k != key && d > genT {
@@ -970,8 +1202,12 @@ func body(r *simrt.Run, tier string) {
 			}
 		case opRemove:
 			genDue[o.key] = -1
-		case opTick:
+		case opTick, opBurst:
 			genT += o.n
+		case opDrain:
+			for k := range genDue {
+				genDue[k] = -1
+			}
 		}
 	}
 	genPending := func() []int {
@@ -987,26 +1223,38 @@ func body(r *simrt.Run, tier string) {
 	drawAct := func(key int) action {
 		var a action
 		if pAct > 0 && t.Intn(10) < pAct {
-			other := key
-			if nKeys > 1 {
+			other := key // a quarter of the callbacks that name a key name their own
+			if nKeys > 1 && t.Intn(4) != 0 {
 				other = (key + 1 + t.Intn(nKeys-1)) % nKeys
 			}
-			switch t.Intn(4) {
+			switch t.Intn(5) {
 			case 0, 1:
 				a = action{kind: actRearm, steps: steps(key), frac: drawFrac(t, interval), chain: []int{0, 0, 1, 3}[t.Intn(4)]}
 			case 2:
 				a = action{kind: actMoveOther, key: other, steps: steps(other), frac: drawFrac(t, interval)}
-			default:
+			case 3:
 				a = action{kind: actRemoveOther, key: other}
+			default:
+				a = action{kind: actSetOther, key: other, steps: steps(other), frac: drawFrac(t, interval)}
 			}
+		}
+		if pPark > 0 && t.Intn(10) < pPark {
+			a.park = true
 		}
 		if pPanic > 0 && t.Intn(10) < pPanic {
 			a.panics = true
+			a.pkind = t.Intn(len(panicNames))
 		}
 		return a
 	}
+	inPlan := true // drains and bursts only as steps of the main history
+	lastSet := make([]*op, nKeys)
 	drawOp := func(key int, allowTick bool) op {
 		o := op{key: key}
+		if allowTick && inPlan && pDrain > 0 && t.Intn(12) < pDrain {
+			o.kind = opDrain
+			return o
+		}
 		v := t.Intn(12)
 		switch {
 		case v < 4:
@@ -1024,14 +1272,33 @@ func body(r *simrt.Run, tier string) {
 		}
 		switch o.kind {
 		case opSet:
-			o.val = nextVal
-			nextVal++
-			o.steps, o.frac = steps(key), drawFrac(t, interval)
-			o.act = drawAct(key)
+			if p := lastSet[key]; p != nil && pRepeat > 0 && t.Intn(10) < pRepeat {
+				// the same value again (a refresh): with a new delay or with the very same delay
+				o.val, o.act, o.rep = p.val, p.act, 1
+				if t.Bool() {
+					o.steps, o.frac, o.rep = p.steps, p.frac, 2
+				} else {
+					o.steps, o.frac = steps(key), drawFrac(t, interval)
+				}
+			} else {
+				o.val = nextVal
+				nextVal++
+				o.steps, o.frac = steps(key), drawFrac(t, interval)
+				o.act = drawAct(key)
+				if useNil && t.Intn(5) == 0 {
+					o.val, o.act = nilVal, action{}
+				}
+			}
+			c := o
+			lastSet[key] = &c
 		case opMove:
 			o.steps, o.frac = steps(key), drawFrac(t, interval)
 		case opTick:
 			o.n = drawTicks(t, n)
+			if inPlan && pBurst > 0 && t.Intn(10) < pBurst {
+				o.kind = opBurst
+				o.n = t.Range(2, n+3)
+			}
 		}
 		return o
 	}
@@ -1041,6 +1308,8 @@ func body(r *simrt.Run, tier string) {
 			o := op{kind: opSet, key: k, val: nextVal, steps: steps(k), frac: drawFrac(t, interval)}
 			nextVal++
 			o.act = drawAct(k)
+			c := o
+			lastSet[k] = &c
 			genApply(o)
 			plan = append(plan, step{ops: []op{o}})
 		}
@@ -1061,15 +1330,26 @@ func body(r *simrt.Run, tier string) {
 		}
 		o := drawOp(t.Intn(nKeys), true)
 		genApply(o)
-		plan = append(plan, step{ops: []op{o}})
+		st := step{ops: []op{o}}
+		if pB2B > 0 && o.kind != opTick && o.kind != opBurst && o.kind != opDrain && t.Intn(10) < pB2B {
+			// no waiting for the wheel to be idle: 0-2 more operations directly behind it, then possibly a tick
+			st.b2b = true
+			for j, m := 0, t.Intn(3); j < m; j++ {
+				x := drawOp(t.Intn(nKeys), false)
+				genApply(x)
+				st.ops = append(st.ops, x)
+			}
+			if st.thenTick = t.Intn(3) != 0; st.thenTick {
+				genApply(op{kind: opTick, n: 1})
+			}
+		}
+		plan = append(plan, st)
 	}
-	// 0: run out; 1: drain; 2: some ticks, then drain; 3: drain racing with a tick (race mode) / drain;
-	// 4: slow drain followed by operations and ticks
-	end := []int{0, 1, 0, 2, 0, 3, 4, 4}[t.Intn(8)]
+	inPlan = false
 	partial := drawTicks(t, n)
 	extra := t.Intn(n + 2)
 	drainPanics := map[int]bool{} // drain callback panics for these keys
-	if pPanic > 0 && end != 0 {
+	if pPanic > 0 && (end != 0 || pDrain > 0) {
 		for k := 0; k < nKeys; k++ {
 			if t.Intn(10) < pPanic {
 				drainPanics[k] = true
@@ -1077,9 +1357,6 @@ func body(r *simrt.Run, tier string) {
 		}
 	}
 	var sdPlan *slowDrainPlan
-	if mode == modeBulk {
-		end = 4
-	}
 	if end == 4 {
 		sdPlan = &slowDrainPlan{ticksBefore: 0, quiesce: t.Bool()}
 		if mode != modeBulk && t.Bool() {
@@ -1126,28 +1403,45 @@ func body(r *simrt.Run, tier string) {
 			sdPlan.after = append(sdPlan.after, o)
 		}
 	}
+	var pp *peerPlan
+	if withPeer {
+		pp = genPeer(t, maxSlots, nKeys, len(plan), &nextVal)
+	}
 
-	w := &world{r: r, n: n, interval: interval, noDemote: noDemote, acts: map[int]action{}, nextCbVal: 100000}
+	w := &world{r: r, n: n, interval: interval, noDemote: noDemote, acts: map[int]action{}, nextCbVal: 100000,
+		valShape: valShape, pkDrain: pkDrain, gate: make(chan struct{})}
+	w.setKeys(makeKeys(keyShape, nKeys))
 	for i := 0; i < nKeys; i++ {
 		w.keys = append(w.keys, &keyState{cands: []cand{{}}, gone: "never-set"})
 	}
 	w.hasActOps = pAct > 0
 	if r.Tracing() {
-		r.Logf("mode=%d slots=%d interval=%v keys=%d end=%d partial=%d extra=%d noDemote=%v drainPanics=%v plan=%v slowDrain=%v", mode, n, interval, nKeys, end, partial, extra, noDemote, drainPanics, plan, sdPlan)
+		r.Logf("mode=%d slots=%d interval=%v keys=%d (%s) values=%s end=%d partial=%d extra=%d noDemote=%v drainPanics=%v plan=%v slowDrain=%v peer=%v", mode, n, interval, nKeys,
+			keyShapeNames[keyShape], valShapeNames[valShape], end, partial, extra, noDemote, drainPanics, plan, sdPlan, pp)
 	}
 	var ps []string
 	for _, s := range plan {
 		ps = append(ps, s.String())
 	}
 	sample := map[string]any{"mode": modeNames[mode], "slots": n, "interval": interval.String(), "keys": nKeys, "history": ps,
+		"key_objects": keyShapeNames[keyShape], "value_objects": valShapeNames[valShape],
 		"end": []string{"run out", "drain", "ticks then drain", "drain (racing with a tick in race mode)", "slow drain, then operations on the drained keys and ticks"}[end]}
 	if sdPlan != nil {
 		sample["slow_drain"] = sdPlan.String()
 	}
 	if len(drainPanics) > 0 {
-		sample["drain_callback_panics_for_keys"] = fmt.Sprint(drainPanics)
+		sample["drain_callback_panics_for_keys"] = fmt.Sprint(drainPanics) + " with " + panicNames[pkDrain]
+	}
+	if pp != nil {
+		sample["second_wheel"] = pp.String()
 	}
 	r.Sample(sample)
+	if keyShape != 0 {
+		r.Probe("keys:" + keyShapeNames[keyShape])
+	}
+	if valShape != 0 {
+		r.Probe("values:" + valShapeNames[valShape])
+	}
 
 	var err error
 	w.t0 = time.Now()
@@ -1164,51 +1458,69 @@ func body(r *simrt.Run, tier string) {
 	}
 	w.drainPanics = drainPanics
 	defer func() {
+		w.releaseQuietly()
 		if w.sd != nil {
 			w.sd.cleanup()
 		}
 		w.tw.Stop()
 		r.Quiesce()
 	}()
+	var pw *world
+	if pp != nil {
+		r.Probe("second-wheel")
+		if pw, err = w.newPeer(pp); err != nil {
+			r.Fail("op-error", "NewTimingWheelWithTicker(%v, %d) returned %v", pp.interval, pp.n, err)
+			return
+		}
+		defer func() {
+			pw.tw.Stop()
+			r.Quiesce()
+		}()
+	}
 	r.Quiesce()
 
-	for _, s := range plan {
+	for i, s := range plan {
 		if w.stop {
 			return
 		}
 		switch {
 		case s.race:
 			w.raceRound(s.ops)
+		case s.b2b:
+			w.backToBack(s.ops, s.thenTick)
 		case s.ops[0].kind == opTick:
 			w.seqTicks(s.ops[0].n)
+		case s.ops[0].kind == opBurst:
+			w.burst(s.ops[0].n)
+		case s.ops[0].kind == opDrain:
+			r.Probe("drain-in-the-middle-of-the-history")
+			w.drain(false)
 		default:
 			w.seqOp(s.ops[0])
+		}
+		if pw != nil {
+			w.cross(pw, s.String())
+			w.peerSteps(pp, pp.sched[i])
+		}
+		if len(w.parked) > 0 && !w.stop && t.Intn(3) == 0 {
+			w.releaseParked()
 		}
 	}
 	if w.stop {
 		return
 	}
-	runOut := func() {
-		// callbacks may re-arm: until nothing is pending any more (chains are bounded)
-		for i := 0; i < 64 && !w.stop; i++ {
-			d := w.maxDue() - w.T
-			if d <= 0 {
-				break
-			}
-			w.seqTicks(d)
-		}
-		if !w.stop {
-			for _, ks := range w.keys {
-				if ks.anyPending() {
-					w.fail("model-error", "harness bug: key still pending after run-out: %v", ks.cands)
-					return
-				}
-			}
-		}
+	if pw != nil {
+		w.peerSteps(pp, -1) // the second wheel keeps what is pending on it while the first one ends
+	}
+	if len(w.parked) > 0 && !w.stop && t.Bool() {
+		w.releaseParked()
+	}
+	if w.stop {
+		return
 	}
 	switch end {
 	case 0:
-		runOut()
+		w.runOut()
 	case 2:
 		w.seqTicks(partial)
 		if !w.stop {
@@ -1230,17 +1542,72 @@ func body(r *simrt.Run, tier string) {
 			w.slowDrainThenOps(sdPlan)
 		}
 		if !w.stop {
-			runOut() // timers set after Drain fire normally
+			w.runOut() // timers set after Drain fire normally
 		}
 	default:
 		w.drain(false)
 	}
 	if !w.stop {
+		// slow callbacks that are still parked are let go; what they re-arm runs out
+		w.finishParked()
+	}
+	if !w.stop {
 		// nothing may fire any more
 		w.seqTicks(extra)
 	}
+	if pw != nil && !w.stop {
+		w.cross(pw, "the end of the history")
+		if pp.end == 0 {
+			pw.runOut()
+		} else {
+			pw.drain(false)
+		}
+		if !w.stop {
+			pw.seqTicks(1 + extra%3)
+		}
+		pw.cross(w, "the end of the history")
+		if !w.stop && pw.verified > 0 {
+			r.Probe("second-wheel-verified-fire-or-delivery")
+		}
+	}
 	if !w.stop && w.verified > 0 && w.boundary {
 		r.Probe("nontrivial")
+	}
+}
+
+// runOut ticks until nothing is pending any more (callbacks may re-arm; chains are bounded).
+func (w *world) runOut() {
+	for i := 0; i < 64 && !w.stop; i++ {
+		d := w.maxDue() - w.T
+		if d <= 0 {
+			break
+		}
+		w.seqTicks(d)
+	}
+	if w.stop {
+		return
+	}
+	// timers thousands of revolutions away are never reached: they are taken out
+	for k, ks := range w.keys {
+		isFar := false
+		for _, c := range ks.cands {
+			if c.pending && c.due-w.T > farLimit {
+				isFar = true
+			}
+		}
+		if isFar {
+			w.r.Probe("far-timer-removed-at-the-end")
+			w.seqOp(op{kind: opRemove, key: k})
+			if w.stop {
+				return
+			}
+		}
+	}
+	for _, ks := range w.keys {
+		if ks.anyPending() {
+			w.fail("model-error", "harness bug: key still pending after run-out: %v", ks.cands)
+			return
+		}
 	}
 }
 
